@@ -64,6 +64,33 @@ class Store(object):
         self.runs = []      # per arrival: index of the import run
         self.moved = set()  # keys under which 'replace' put a feature >= 1 Mb away from the one it replaced
         self.stats = {}     # what the history exercised (valueless keys met in a union, '.' coordinates in a collision)
+        self.autoid = {}    # featuretype -> number of features filed under an auto-numbered '<featuretype>_<n>' so far
+
+    def key_of(self, rec, idkey, keyspec=None):
+        """The key id_spec derives for the feature -> (key, featuretype whose auto-number it uses or None).
+        keyspec None: the single value of the id attribute.  {"form": "field", "field": c}: the column c (':c:');
+        {"form": "callable", "cols": [...]}: the columns joined by ':' (what the callable returns);
+        {"form": "autoid"}: the value of the id attribute, without one '<featuretype>_<n>' (n-th such feature of the type)."""
+        attrs = dict((k, v) for k, v in rec["attrs"])
+        form = (keyspec or {}).get("form")
+        if form == "field":
+            return rec[keyspec["field"]], None
+        if form == "callable":
+            return ":".join(rec[c] for c in keyspec["cols"]), None
+        if form == "autoid":
+            if attrs.get(idkey):
+                return attrs[idkey][0], None
+            ft = rec["featuretype"]
+            return "%s_%d" % (ft, self.autoid.get(ft, 0) + 1), ft
+        return attrs[idkey][0], None
+
+    def arrive_rec(self, rec, idkey, keyspec=None):
+        key, auto = self.key_of(rec, idkey, keyspec)
+        out = self.arrive(key, rec)          # Abort / Silent: nothing changed
+        if auto is not None:
+            self.autoid[auto] = self.autoid.get(auto, 0) + 1
+            self._stat("features filed under an auto-numbered key")
+        return out
 
     def _stat(self, name):
         self.stats[name] = self.stats.get(name, 0) + 1
@@ -103,6 +130,10 @@ class Store(object):
             elif a == "." or b == ".":
                 self._stat("collision: %s is '.' on one side only (columns differ)" % c)
         old = self.feats[key]
+        if not old.attrs:
+            self._stat("%s: the stored feature of a collision has no attributes at all" % st)
+        if not rec["attrs"]:
+            self._stat("%s: the newcomer of a collision has no attributes at all" % st)
         if old.extra != list(rec.get("extra") or []):
             self._stat("%s: colliding arrivals differ in their extra columns" % st)
         if far_apart(old.cols, rec):
@@ -143,6 +174,15 @@ class Store(object):
         tgt = agreeing[0]
         e = self.feats[tgt]
         self._repeat_stats(e, rec)
+        where = "create_db" if self.batch == 0 else "update()"
+        if self.force and any(rec[c] not in e.forced[c] for c in self.force):
+            if not e.attrs:
+                self._stat("merge into a stored feature without attributes, a forced column brings a new value")
+                self._stat("merge into a stored feature without attributes, a forced column brings a new value (%s)" % where)
+            elif not rec["attrs"]:
+                self._stat("merge of a newcomer without attributes, a forced column brings a new value")
+            else:
+                self._stat("merge of features with attributes, a forced column brings a new value")
         new = dict((k, v) for k, v in rec["attrs"])
         for k in set(new) | set(e.attrs):
             old_v, new_v = e.attrs.get(k), new.get(k)
@@ -226,16 +266,15 @@ class Store(object):
         return rows
 
 
-def run(strategy, force, batches, idkey, link_keys=()):
+def run(strategy, force, batches, idkey, link_keys=(), keyspec=None):
     """Feed batches of records.  -> (store, outcome) with outcome = ("ok", None) | ("abort", batch index) |
     ("silent", why)."""
     s = Store(strategy, force, link_keys)
     for bi, batch in enumerate(batches):
         s.batch = bi
         for rec in batch:
-            key = dict((k, v) for k, v in rec["attrs"])[idkey][0]
             try:
-                s.arrive(key, rec)
+                s.arrive_rec(rec, idkey, keyspec)
             except Abort:
                 return s, ("abort", bi)
             except Silent as e:
